@@ -18,9 +18,10 @@ pub fn prop() -> Prop {
         rule: "proptest tapes decoding to a drawable (all item kinds of C01; a dedicated sub-check for triangles and polylines with stroke widths 2..=10) and an offset d in [-60,60]^2 (also d derived from the object's position so that it is moved across an axis). Oracle (metamorphic): pixel map of draw(x.translate(d)) == pixel map of draw(x) shifted by d; same for translate_mut, for Styled::translate, for polylines whose vertices are moved instead, for points() (as a sequence), contains() on a probe grid, non-empty bounding boxes, and the next position returned by text. Non-trivial: d != 0, >= 2 pixels, and for the thick-join sub-check width >= 2 with a non-colinear join.",
         assumptions: vec!["coordinates stay within +-200 so no arithmetic overflow can interfere"],
         subs: vec![
-            Sub::tape("items", 60, 150_000, 2_250_000, |d, cx| run_items(d, cx)),
-            Sub::tape("thick_joins", 40, 100_000, 1_500_000, thick_joins),
-            Sub::tape("primitives_queries", 30, 100_000, 1_500_000, queries),
+            Sub::tape("items", 60, 150_000, 7_500_000, |d, cx| run_items(d, cx)),
+            Sub::tape("thick_joins", 40, 100_000, 5_000_000, thick_joins),
+            Sub::tape("large", 40, 1_500, 75_000, large),
+            Sub::tape("primitives_queries", 30, 100_000, 5_000_000, queries),
         ],
     }
 }
@@ -174,5 +175,23 @@ fn queries(d: &mut Dec, cx: &mut Cx) -> Res {
         }
     }
     cx.nontrivial(by != Point::zero() && p0.len() >= 2);
+    Ok(())
+}
+
+
+/// Styled primitives of 100..=300 px, offsets to +-300.
+fn large(d: &mut Dec, cx: &mut Cx) -> Res {
+    type C = Rgb565;
+    let kind = d.u(0, 7);
+    let st = gen::style::<C>(d, 24);
+    let item: Item<C> = Item::Styled(gen::large_shape(d, kind, 100, 300), st);
+    let by = match d.u(0, 2) {
+        0 => offset(d, item.bounding_box().top_left),
+        _ => Point::new(d.i(-300, 300), d.i(-300, 300)),
+    };
+    cx.describe(|| format!("{} translate by {:?}", item.desc(), by));
+    cx.class(item.kind());
+    let n = check_item_translation(&item, by)?;
+    cx.nontrivial(by != Point::zero() && n >= 2);
     Ok(())
 }
